@@ -260,3 +260,5 @@ func InstrPos(in ssa.Instruction) token.Pos {
 	}
 	return in.Parent().Pos()
 }
+
+type pkgT = packages.Package
